@@ -32,7 +32,7 @@ func slots(tier string) int {
 
 func histories(tier string) int {
 	if tier == "thorough" {
-		return 10
+		return 5 // measured: ~10 min per history on 16 idle cores (every FS call of every write-out, plus partial writes)
 	}
 	return 3
 }
